@@ -1026,6 +1026,24 @@ def h_call_closure(I, st, a, t, b):
     return Fork([o.ret for o in outs])
 
 
+def h_ord_max(I, st, a, t, b):
+    x, y = _deref_arg(I, st, a[0]), _deref_arg(I, st, a[1])
+    if isinstance(x, int) and isinstance(y, int):
+        return max(x, y)
+    if isinstance(x, Iv) and isinstance(y, Iv):
+        return h_max(I, st, [x, y], t, b)
+    raise Unsupported('max of %r, %r' % (x, y))
+
+
+def h_ord_min(I, st, a, t, b):
+    x, y = _deref_arg(I, st, a[0]), _deref_arg(I, st, a[1])
+    if isinstance(x, int) and isinstance(y, int):
+        return min(x, y)
+    if isinstance(x, Iv) and isinstance(y, Iv):
+        return h_min(I, st, [x, y], t, b)
+    raise Unsupported('min of %r, %r' % (x, y))
+
+
 def h_deref_identity(I, st, a, t, b):
     return a[0]
 
@@ -1043,7 +1061,7 @@ BUILTINS = {
     'IntoIterator::into_iter': h_into_iter, 'slice::iter': h_iter,
     'Iterator::rev': h_rev, 'Iterator::enumerate': h_enumerate, 'Iterator::next': h_next,
     'Vec::len': h_len, 'slice::len': h_len, 'HashSet::len': h_len,
-    'Clone::clone': h_clone,
+    'Clone::clone': h_clone, 'Ord::max': h_ord_max, 'Ord::min': h_ord_min,
     'Fn::call': h_call_closure, 'FnMut::call_mut': h_call_closure, 'FnOnce::call_once': h_call_closure,
     'Deref::deref': h_deref_identity, 'DerefMut::deref_mut': h_deref_identity, 'AsRef::as_ref': h_deref_identity,
 }
